@@ -309,6 +309,9 @@ def run(report, prog, tier):
     rule_card_loop(report, prog)
     rule_sense(report, prog)
     rule_stale(report, prog)
+    # a tag that fails its activation commands is skipped, connect() keeps polling: the activation boundary of nfc.tag (shared with C16-R4)
+    from .c16 import rule_activate
+    rule_activate(report, prog, rule='C18-R2')
     report.trusted += ['callbacks are opaque; exceptional exits are host-link faults outside this property\'s quantifier']
     report.assumptions += ['the return value of on-release after a true on-connect is what connect() returns (documented defaults return True)']
 
